@@ -83,6 +83,12 @@ def jobs(tier, seed):
         for pat in pats6[:6]:
             js.append({'harness': 'sp', 'weight': 200, 'opts': {'max_paths': 30000},
                        'cfg': {'kind': 'SP', 'rate': 8, 'table': tables[0], 'flows': pat, 'sorts': 'int', 'smax': 3}})
+    # very long busy periods: 15 packets handed in at one instant (sizes 1-2), 12 of the higher priority level
+    for t in tables:
+        hi = max(t, key=lambda k: t[k])
+        pat = [hi, 1 - hi, hi, hi, hi, 1 - hi, hi, hi, hi, hi, 1 - hi, hi, hi, hi, hi]
+        js.append({'harness': 'sp', 'weight': 60, 'opts': {'max_paths': 4000},
+                   'cfg': {'kind': 'SP', 'rate': 8, 'table': t, 'flows': pat, 'sorts': 'int', 'burst': [0] + [1] * 14, 'smax': 2}})
     # priority values need not be integers (2.25 < 2.75: same integer part)
     for t in ({0: 2.25, 1: 2.75}, {0: 2.75, 1: 2.25}):
         js.append({'harness': 'sp', 'weight': 12,
